@@ -14,6 +14,7 @@ from __future__ import annotations
 
 import ast
 
+from ..flow import path_conditions
 from ..core import AnalysisError, dotted
 from ..effects import EffectAnalysis, MUTATOR_METHODS
 from ..grammar import make_shapes
@@ -328,6 +329,27 @@ def exclusive_branches(tree, var):
     return True
 
 
+def excludes_list_kinds(conds, param):
+    """do the path conditions say `param` is neither a list nor a LazyList?
+    (`type(p) not in (list, LazyList)` true, `type(p) in (...)` false,
+    `isinstance(p, (list, LazyList))` false, in any arrangement)"""
+    for test, pol in conds:
+        names = {m.id for m in ast.walk(test) if isinstance(m, ast.Name)}
+        if not {"list", "LazyList", param} <= names:
+            continue
+        if isinstance(test, ast.Compare) and len(test.ops) == 1 \
+                and isinstance(test.left, ast.Call) \
+                and dotted(test.left.func) == "type":
+            if isinstance(test.ops[0], ast.NotIn) and pol:
+                return True
+            if isinstance(test.ops[0], ast.In) and not pol:
+                return True
+        if isinstance(test, ast.Call) and dotted(test.func) == "isinstance" \
+                and not pol:
+            return True
+    return False
+
+
 def deep_copy_fresh(chk, repo):
     helpers = repo.mod("helpers")
     fn = helpers.function("deep_copy")
@@ -340,11 +362,8 @@ def deep_copy_fresh(chk, repo):
     for r in rets:
         v = r.value
         if isinstance(v, ast.Name) and v.id == param:
-            # allowed only under a guard excluding list / LazyList
-            par = getattr(r, "_parent", None)
-            guard_ok = isinstance(par, ast.If) and "not in" in ast.unparse(
-                par.test) and "list" in ast.unparse(par.test) \
-                and "LazyList" in ast.unparse(par.test)
+            # allowed only where list / LazyList are excluded on the path
+            guard_ok = excludes_list_kinds(path_conditions(r, fn), param)
             if not guard_ok:
                 ok = False
                 why = (f"line {r.lineno} returns the argument itself without "
